@@ -72,6 +72,7 @@ def _transports(ctx, c, direction, length, retry=True):
     sd, idv = env.install()
     env.ENV.reset(_FailFirst() if retry else None)
     env.ENV.lun = ctx.int("lun", 16)   # the logical unit number is the URL's, any value
+    env.ENV.sgio_return = ctx.int("resid", 16)   # the SG_IO binding reports an arbitrary residual count
     before = (c.cdb, c.dataout, c.datain, blen(c.datain), blen(c.dataout) if _is_buffer(c.dataout) else None)
     if retry:
         d0 = sd.SCSIDevice("/dev/sg0")
